@@ -1398,7 +1398,7 @@ def replay(g, o, assigns, path):
     elif g.name.endswith(".accessors") or "eigenvectors()" in txt:
         mode = 1
     else:
-        mode = 4
+        mode = 6        # any other obligation: family of inputs inside the quantifier, Eigen assertions on (an abort = reproduced)
     res = RP.run_native(PROP, RP.src("C17_lobpcg_replay.cpp"), args=[mode], cxxflags="-O1 -std=c++11", name="replay%d" % mode)
     res["verifier_counterexample"] = stored_trace(PROP, g, o)     # the runner does not re-run cbmc for a TracedGroup: the trace of the group's own run is kept here
     return res
